@@ -302,8 +302,8 @@ def pin(ctx: Ctx, t: Target, sig: str, first_case) -> Any:
         )
     except NoSuchExample:
         pass
-    except Exception:  # pragma: no cover - shrinking is best effort
-        traceback.print_exc()
+    except Exception as e:  # shrinking is best effort (e.g. hypothesis Flaky*): keep the best witness so far
+        print(f"  (pin: shrinking stopped early: {type(e).__name__})")
     if best[0] is not None:
         a = json.dumps(canon(best[0]), default=repr)
         b = json.dumps(first_case, default=repr)
@@ -443,8 +443,9 @@ def run_check(pid: str, tier: str, seed: int, nshards: Optional[int] = None) -> 
         "violations": len(violations),
     }
     ev["coverage"].update(ctx.extra)
-    os.makedirs(os.path.join(env.VERIF, "evidence"), exist_ok=True)
-    with open(os.path.join(env.VERIF, "evidence", f"{pid}.json"), "w") as fh:
+    evdir = os.environ.get("VERIF_EVIDENCE_DIR") or os.path.join(env.VERIF, "evidence")
+    os.makedirs(evdir, exist_ok=True)
+    with open(os.path.join(evdir, f"{pid}.json"), "w") as fh:
         json.dump(ev, fh, indent=1, default=repr)
     print(
         f"[{pid}] tier={tier} seed={seed} evaluations={col.evaluations} nontrivial={len(col.nontrivial_hashes) + col.batch_nontrivial} "
